@@ -283,3 +283,72 @@ func tracesElem(v ssa.Value, call *ssa.Call) string {
 	}
 	return "the matches are not walked in order"
 }
+
+// ResetFirst: fn removes the directory held by the package variable `global` (a
+// (*paths.Path).RemoveAll on the value loaded from it) before it writes anything through a
+// paths.Path (CopyFS, CopyTo, MkdirAll, ...), on every path: what an earlier run left in
+// that directory cannot survive into this run's output.
+func ResetFirst(prog *load.Program, fn *ssa.Function, global string) Result {
+	res := Result{Name: fnKey(fn) + "/removes-" + global + "-before-writing", Func: fnKey(fn), Pos: prog.Pos(fn.Pos())}
+	writers := map[string]bool{"CopyFS": true, "CopyTo": true, "MkdirAll": true, "Mkdir": true, "WriteFile": true, "Rename": true, "Create": true, "Symlink": true}
+	isPathMethod := func(c *ssa.CallCommon) (string, bool) {
+		f := c.StaticCallee()
+		if f == nil || f.Signature.Recv() == nil {
+			return "", false
+		}
+		if !strings.HasSuffix(types.TypeString(f.Signature.Recv().Type(), nil), "pkg/paths.Path") {
+			return "", false
+		}
+		return f.Name(), true
+	}
+	type site struct {
+		b   *ssa.BasicBlock
+		idx int
+	}
+	var reset *site
+	var writes []site
+	var wnames []string
+	for _, b := range fn.Blocks {
+		for i, in := range b.Instrs {
+			ci, ok := in.(ssa.CallInstruction)
+			if !ok {
+				continue
+			}
+			name, ok := isPathMethod(ci.Common())
+			if !ok {
+				continue
+			}
+			if name == "RemoveAll" && len(ci.Common().Args) > 0 {
+				if ld, ok := ci.Common().Args[0].(*ssa.UnOp); ok {
+					if g, ok := ld.X.(*ssa.Global); ok && g.Name() == global && reset == nil {
+						reset = &site{b, i}
+					}
+				}
+			}
+			if writers[name] {
+				writes = append(writes, site{b, i})
+				wnames = append(wnames, name)
+			}
+		}
+	}
+	if reset == nil {
+		res.Detail = "no " + global + ".RemoveAll() in " + fnKey(fn)
+		return res
+	}
+	for k, w := range writes {
+		if w.b == reset.b {
+			if w.idx < reset.idx {
+				res.Detail = wnames[k] + " comes before the directory is removed"
+				return res
+			}
+			continue
+		}
+		if !reset.b.Dominates(w.b) {
+			res.Detail = wnames[k] + " can be reached without the directory having been removed"
+			return res
+		}
+	}
+	res.OK = true
+	res.Detail = fmt.Sprintf("%s.RemoveAll() dominates the %d writing call(s) of the function", global, len(writes))
+	return res
+}
